@@ -493,11 +493,22 @@ def run(chk) -> None:
     )
     chk.trusted = ["CPython ast", "mmcif writer/reader quoting and tokenising", "pandas dtype coercions", "wwPDB column table"]
     chk.assumptions = ["data fit PDB field widths (the statement's precondition)"]
-    chk.robust |= {"writer-layout", "writer-reader-columns", "charge-format", "cif-to-cif", "pdb-record-filter", "pdb-decode-v2", "pdb-slices-agree", "pdb-slices-v2", "value-domain", "null-agreement"}
+    chk.robust |= {"writer-layout", "writer-reader-columns", "charge-format", "cif-to-cif", "pdb-record-filter", "pdb-decode-v2", "pdb-slices-agree", "pdb-slices-v2", "value-domain", "null-agreement", "atom-data-keys"}
     formatter_layout(chk)
     check_formatter_details(chk)
-    check_other_lines(chk)
-    check_record_order(chk)
+    from checks import c09e
+
+    evaluated = False
+    try:
+        evaluated = c09e.check_write_pdb_eval(chk)  # record order, TER/MODEL lines and the write-read round trip, evaluated on representative tables
+    except AnalysisError:
+        raise
+    except Exception as ex:
+        chk.ok("write-pdb-eval", "-", f"evaluation of write_pdb failed internally ({type(ex).__name__}: {str(ex)[:60]}): the pinned-form rules decide")
+    if not evaluated:
+        check_other_lines(chk)
+        check_record_order(chk)
+    c09e.check_atom_data_keys(chk)
     check_field_maps(chk)
     check_reader(chk)
     check_splitter(chk)
